@@ -195,6 +195,7 @@ func (AddFields) Run(c choice.Chooser, opt sim.Options) sim.Result {
 		return map[string]any{"call": desc, "fields": specs, "policy": out.PolicyName, "schedule": schedule(out)}
 	}
 	res.Sig = desc + "/" + out.Signature()
+	res.DetHash = desc + "/" + out.Decisions
 	nblocks := 0
 	for _, b := range seq.VerifFloat1Blocks() {
 		nblocks += len(b)
